@@ -339,32 +339,58 @@ func namedLocals(fn *ssa.Function) ([]*ssa.Alloc, []localRef) {
 	return as, ls
 }
 
-// renamedLocal: name is not a local of fn today, but it was when the contracts were written and
-// the function still has the same locals (same number, same types, same order): the local at the
-// same position is meant (a pure rename).
+// renamedLocal: name is not a local of fn today, but it was when the contracts were written.
+// The locals that disappeared (by name) are matched with the locals that are new (by name) type
+// by type, in order of appearance; the match is only used when, for the type of the missing local,
+// as many locals disappeared as appeared (a pure rename, possibly next to unrelated new locals of
+// other types).
 func (c *Ctx) renamedLocal(fn *ssa.Function, name string) *ssa.Alloc {
 	ref := c.localsRef[funcKey(fn)]
 	if ref == nil {
 		return nil
 	}
 	as, cur := namedLocals(fn)
-	if len(cur) != len(ref) {
-		return nil
+	curNames := map[string]bool{}
+	for _, l := range cur {
+		curNames[l.Name] = true
 	}
-	idx := -1
-	for i := range ref {
-		if ref[i].Type != cur[i].Type {
-			return nil
-		}
-		if ref[i].Name == name {
-			if idx >= 0 {
-				return nil // ambiguous in the reference
+	refNames := map[string]bool{}
+	typ := ""
+	for _, l := range ref {
+		refNames[l.Name] = true
+		if l.Name == name {
+			if typ != "" && typ != l.Type {
+				return nil // the name denoted locals of different types
 			}
-			idx = i
+			typ = l.Type
 		}
 	}
-	if idx < 0 {
+	if typ == "" {
 		return nil
 	}
-	return as[idx]
+	var missing []string // names of type typ that disappeared, in order (each once)
+	seen := map[string]bool{}
+	for _, l := range ref {
+		if l.Type == typ && !curNames[l.Name] && !seen[l.Name] {
+			seen[l.Name] = true
+			missing = append(missing, l.Name)
+		}
+	}
+	var fresh []*ssa.Alloc // locals of type typ whose names are new, in order (each name once)
+	seen = map[string]bool{}
+	for i, l := range cur {
+		if l.Type == typ && !refNames[l.Name] && !seen[l.Name] {
+			seen[l.Name] = true
+			fresh = append(fresh, as[i])
+		}
+	}
+	if len(missing) != len(fresh) {
+		return nil
+	}
+	for i, m := range missing {
+		if m == name {
+			return fresh[i]
+		}
+	}
+	return nil
 }
